@@ -1,3 +1,7 @@
 -- root of the library: imports every Props/Findings module so that `lake build` checks everything
 import ChibiVerif.Props.C17
 import ChibiVerif.Findings.C17
+import ChibiVerif.Props.C07
+import ChibiVerif.Findings.C07
+import ChibiVerif.Props.C11
+import ChibiVerif.Findings.C11
